@@ -110,4 +110,40 @@ def valStream (cfg : Cfg M K R) (eqv : Eqv M) (o : SubOpts K) (s : VState M) (op
     List (VDeliv M) :=
   (valSeed cfg s o).1 ++ forwardAll cfg eqv o (valSeed cfg s o).2 (vBusEvents cfg s ops)
 
+
+/-! ## A subscriber that opens while a write is in flight
+
+`Collection.onUpdate` / `Value.onUpdate` take the snapshot for the seed and register on the bus while
+holding `mu.RLock` (the `defer RUnlock` runs after `bus.Listen`), and a write commits under `mu.Lock`:
+subscribing is ONE atomic step with respect to commits.  A write is two steps, commit and publish
+(`Delete` publishes while still holding the lock: one step).  So one subscribe and one write interleave
+in exactly three ways. -/
+inductive SubOrder
+  /-- subscribe, then commit and publish: seed without the write, event delivered -/
+  | subFirst
+  /-- commit, subscribe, publish: the seed already has the write, its event arrives afterwards -/
+  | subBetween
+  /-- commit and publish, then subscribe: seed has the write, nothing to deliver -/
+  | subLast
+  deriving DecidableEq, Repr
+
+/-- The bus events a subscriber that subscribed at the given point of write `w` is sent (before the
+per-subscription filter/equivalence), and the state its seed is taken from. -/
+def raceSeedState (cfg : Cfg M K R) (s : CState M R) (w : COp M K) : SubOrder → CState M R
+  | .subFirst => s
+  | _ => (Coll.step cfg s w).2
+
+def raceBusEvents (cfg : Cfg M K R) (s : CState M R) (w : COp M K) (rest : List (COp M K)) :
+    SubOrder → List (CEvent M)
+  | .subLast => busEvents cfg (Coll.step cfg s w).2 rest
+  | _ => eventsOf (Coll.step cfg s w).1 ++ busEvents cfg (Coll.step cfg s w).2 rest
+
+def raceStream (cfg : Cfg M K R) (eqv : Eqv M) (o : SubOpts K) (s : CState M R) (w : COp M K)
+    (rest : List (COp M K)) (ord : SubOrder) : List (CEvent M) :=
+  collSeed cfg (raceSeedState cfg s w ord) o ++ (raceBusEvents cfg s w rest ord).filterMap (collForward cfg eqv o)
+
+/-- a consumer's fold: apply one event to a view -/
+def applyEv (view : String → Option M) (e : CEvent M) : String → Option M :=
+  fun k => if k = e.id then e.new else view k
+
 end ScVerif.C04
